@@ -1044,6 +1044,100 @@ class Interp:
                     o.add("norm", s, None, t)
         return o
 
+    def _expand_contextmanager(self, st, i, item):
+        """`with self._helper(args) [as x]: BODY` where _helper is a @contextmanager generator of the analysed class (or
+        module) with one `yield` statement: the generator's body with BODY in place of the yield - which is what the
+        with statement executes, exceptions of BODY arriving at the yield included.  The generator's own names are
+        renamed apart from the caller's.  -> list of statements, or None if this is not such a call."""
+        call = item.context_expr
+        if not isinstance(call, ast.Call) or self.prog is None or getattr(self.dom, "fn", None) is None:
+            return None
+        fi = None
+        f = call.func
+        if isinstance(f, ast.Attribute) and isinstance(f.value, ast.Name) and f.value.id == "self" and self.dom.fn.cls is not None:
+            fi = self.prog.method(self.dom.fn.cls, f.attr, required=False)
+        elif isinstance(f, ast.Name):
+            fi = self.dom.fn.module.functions.get(f.id)
+        if fi is None or not any("contextmanager" in d for d in fi.decorators) or fi is self.dom.fn:
+            return None
+        if getattr(self.dom, "expand_contextmanagers", True) is False:
+            return None
+        import copy
+
+        body = [s_ for s_ in fi.node.body if not (isinstance(s_, ast.Expr) and isinstance(s_.value, ast.Constant) and isinstance(s_.value.value, str))]
+        yields = [n for s_ in body for n in ast.walk(s_) if isinstance(n, (ast.Yield, ast.YieldFrom))]
+        if len(yields) != 1 or isinstance(yields[0], ast.YieldFrom) or any(isinstance(n, ast.Return) and n.value is not None for s_ in body for n in ast.walk(s_)):
+            return None
+        if any(isinstance(a, ast.Starred) for a in call.args) or any(k.arg is None for k in call.keywords):
+            return None
+        body = copy.deepcopy(body)
+        tag = "_cm%d_" % call.lineno
+        params = [a.arg for a in fi.node.args.posonlyargs + fi.node.args.args + fi.node.args.kwonlyargs]
+        own = set(params) - {"self"}
+        for s_ in body:
+            for n in ast.walk(s_):
+                if isinstance(n, ast.Name) and isinstance(n.ctx, ast.Store):
+                    own.add(n.id)
+                elif isinstance(n, ast.ExceptHandler) and n.name:
+                    own.add(n.name)
+        for s_ in body:
+            for n in ast.walk(s_):
+                if isinstance(n, ast.Name) and n.id in own:
+                    n.id = tag + n.id
+                elif isinstance(n, ast.ExceptHandler) and n.name in own:
+                    n.name = tag + n.name
+        # parameter binding
+        binds = []
+        pos = [p_ for p_ in params if p_ != "self"]
+        given = dict(zip(pos, call.args))
+        for k in call.keywords:
+            given[k.arg] = k.value
+        defaults = {}
+        a = fi.node.args
+        allpos = a.posonlyargs + a.args
+        for prm, d in zip(allpos[len(allpos) - len(a.defaults):], a.defaults):
+            defaults[prm.arg] = d
+        for prm, d in zip(a.kwonlyargs, a.kw_defaults):
+            if d is not None:
+                defaults[prm.arg] = d
+        for p_ in pos:
+            val = given.get(p_, defaults.get(p_))
+            if val is None:
+                return None
+            binds.append(ast.Assign(targets=[ast.Name(id=tag + p_, ctx=ast.Store())], value=val, lineno=call.lineno, col_offset=call.col_offset))
+        inner = st.body if i + 1 == len(st.items) else [ast.With(items=st.items[i + 1:], body=st.body, lineno=st.lineno, col_offset=st.col_offset)]
+
+        done = [False]
+
+        def splice(stmts):
+            out = []
+            for s_ in stmts:
+                if isinstance(s_, ast.Expr) and isinstance(s_.value, ast.Yield):
+                    if item.optional_vars is not None:
+                        out.append(ast.Assign(targets=[item.optional_vars], value=s_.value.value or ast.Constant(value=None), lineno=s_.lineno, col_offset=s_.col_offset))
+                    out.extend(inner)
+                    done[0] = True
+                    continue
+                for fld in ("body", "orelse", "finalbody"):
+                    if isinstance(getattr(s_, fld, None), list):
+                        setattr(s_, fld, splice(getattr(s_, fld)))
+                if isinstance(s_, ast.Try):
+                    for h in s_.handlers:
+                        h.body = splice(h.body)
+                out.append(s_)
+            return out
+
+        new = binds + splice(body)
+        if not done[0]:
+            return None  # the yield is not a statement of its own (e.g. `x = yield`): not expanded
+        for s_ in new:
+            ast.fix_missing_locations(s_)
+            for n in ast.walk(s_):
+                for ch in ast.iter_child_nodes(n):
+                    if not hasattr(ch, "_parent"):
+                        ch._parent = n
+        return new
+
     def s_With(self, st, state, trace, ctx):
         return self._with(st, 0, state, trace, ctx)
 
@@ -1051,6 +1145,14 @@ class Interp:
         if i == len(st.items):
             return self.block(st.body, [(state, trace)], ctx)
         item = st.items[i]
+        expanded = self._expand_contextmanager(st, i, item)
+        if expanded is not None:
+            return self.block(expanded, [(state, trace)], ctx)
+        ce = item.context_expr
+        if isinstance(ce, ast.Call) and isinstance(ce.func, ast.Name) and self.prog is not None and ce.func.id in self.prog.classes and "__exit__" in self.prog.classes[ce.func.id].methods:
+            # a context manager *class* of the package: what its __exit__ does with the exceptions of the body (swallow,
+            # book-keep, re-raise) is behaviour this engine does not follow - no verdict is drawn from code under it
+            raise AnalysisError("`with %s(...)` at line %d: %s is a context-manager class of the package; the analysis does not model its __exit__ (which exceptions it swallows), so the code under it cannot be decided" % (ce.func.id, st.lineno, ce.func.id))
         o = Outs()
         oks, excs = self.ev(item.context_expr, state, ctx)
         self._emit_excs(o, excs, trace)
@@ -1463,7 +1565,7 @@ class Interp:
             res = None
             if isinstance(fval, LambdaV) and not any(isinstance(a, ast.Starred) for a in e.args):
                 res = self.dom.apply_lambda(e, fval, args, kwargs, s)
-            if res is None and fval is TOP and isinstance(e.func, ast.Name) and hasattr(self.dom, "instantiate") and self.prog is not None and e.func.id in self.prog.classes:
+            if res is None and (fval is TOP or isinstance(fval, ClassRef)) and isinstance(e.func, ast.Name) and hasattr(self.dom, "instantiate") and self.prog is not None and e.func.id in self.prog.classes:
                 res = self.dom.instantiate(e, self.prog.classes[e.func.id], args, kwargs, s)
             if res is None:
                 res = self.dom.call(e, fval, args, kwargs, s)
